@@ -41,7 +41,7 @@ def floors(tier):
 
 def shards(tier, seed):
     n = 16
-    per = {"quick": 4000, "thorough": 120000}[tier]
+    per = {"quick": 2500, "thorough": 120000}[tier]
     return [{"seed": seed * 1000 + i, "n": per, "idx": i, "nsh": n} for i in range(n)]
 
 
